@@ -18,6 +18,7 @@ func checkC17(c *Ctx) {
 	c17SetClear(c)
 	c17SharedWrites(c)
 	c17ProbeContext(c)
+	c17UserfuncContext(c)
 	c.NotCovered("equality of concurrent and sequential results beyond isolation by context key")
 	c.NotCovered("races inside go-cty or inside application-supplied functions")
 	c.NotCovered("writes through reflection or unsafe (import scan only)")
@@ -715,4 +716,33 @@ func runEffects(c *Ctx, rule string, roots map[*ssa.Function]bool, pkgs map[stri
 		}
 	}
 	return len(fns), nWrites
+}
+
+
+// R6 call.ctx: a user-defined function evaluates its result in a context of its own.
+func c17UserfuncContext(c *Ctx) {
+	c.Rule("R6 call.ctx: in ext/userfunc every evaluation of an expression inside the implementation closure of a decoded function (a function.Spec Impl) is given a context obtained from NewChild() on every path, never the shared base context itself: per-evaluation state of the syntax tree (the splat's current item) is keyed by the context, so two concurrent calls that evaluated in the base context would overwrite each other's state")
+	n := 0
+	for _, fn := range c.P.pkgFuncs("ext/userfunc") {
+		if fn.Parent() == nil {
+			continue // closures only: the Impl of the function being decoded
+		}
+		for _, b := range fn.Blocks {
+			for _, ins := range b.Instrs {
+				call, ok := ins.(*ssa.Call)
+				if !ok || !call.Call.IsInvoke() || call.Call.Method.Name() != "Value" || len(call.Call.Args) != 1 {
+					continue
+				}
+				if !isNamed(call.Call.Args[0].Type().(*types.Pointer).Elem(), modPath, "EvalContext") {
+					continue
+				}
+				n++
+				c.Sites++
+				c.Fn(FuncName(fn))
+				c.Check(derivesFromNewChild(call.Call.Args[0], map[ssa.Value]bool{}), "call.ctx", FuncName(fn)+":eval["+pathName(call.Call.Value)+"]", call.Pos(), "evaluated in a fresh child context",
+					"the function body is evaluated in a context that is not (on every path) a fresh child of the base context: calls running concurrently share the context that keys the per-evaluation state of the syntax tree")
+			}
+		}
+	}
+	c.Floor("call.ctx evaluations", n, 1, "the result expression of a user-defined function")
 }
